@@ -215,7 +215,18 @@ func main() {
 				extra["positive_controls"] = cr
 				extra["positive_controls_rule"] = "each kept seeded change of this property (/verif/seeded/*, a realistic breaking patch confirmed by a failing demonstration) is applied to a scratch copy of the current tree and the same static rules are run on the copy; 'fired' lists the obligations violated on the copy and not on the tree itself. Informational: it shows the rules are not vacuous; it never changes this check's verdict."
 			}
-			if nr := runNegControls(*repo, filepath.Join(filepath.Dir(*controls), "benign"), *known, id); nr != nil {
+			// the source files in which this property has obligations
+			relevant := map[string]bool{}
+			for _, o := range first.Obs {
+				if o.Prop != id || o.Pos == "" {
+					continue
+				}
+				if i := strings.Index(o.Pos, ":"); i > 0 {
+					relevant[filepath.Base(o.Pos[:i])] = true
+				}
+			}
+			totalNeg, _ := filepath.Glob(filepath.Join(filepath.Dir(*controls), "benign", "*.diff"))
+			if nr := runNegControls(*repo, filepath.Join(filepath.Dir(*controls), "benign"), *known, id, relevant); nr != nil {
 				noisy := 0
 				for _, r := range nr {
 					if !r.Silent {
@@ -223,7 +234,7 @@ func main() {
 					}
 				}
 				extra["negative_controls"] = nr
-				extra["negative_controls_rule"] = fmt.Sprintf("each behaviour-preserving refactoring in /verif/benign (written by independent agents; compiles, full suite passes) is applied to a scratch copy and this property's rules are run on the copy; a rule that fires there is an alarm on code where the property holds. %d of %d silent. Informational; never changes this check's verdict.", len(nr)-noisy, len(nr))
+				extra["negative_controls_rule"] = fmt.Sprintf("each behaviour-preserving refactoring in /verif/benign (written by independent agents; compiles, full suite passes) is applied to a scratch copy and this property's rules are run on the copy; a rule that fires there is an alarm on code where the property holds. Analysed for this property: the %d of %d refactorings that touch a source file in which the property has obligations (the others leave every function its rules read unchanged); %d of them silent. Informational; never changes this check's verdict.", len(nr), len(totalNeg), len(nr)-noisy)
 			}
 		}
 		nviol, lines, err := writeEvidence(*out, registry[id].Meta, *tier, seed, first, cfgNames, wall, extra)
